@@ -23,6 +23,18 @@ CHECKS = {
         text='Every history of add/re-add/remove/pop/clear up to the depth bound is executed on the real TaskQueue and all queries are compared with a sorted-list model after every step; bounded exhaustive, so it covers every history (not a sample) below the bound.',
         note='Trusted: the list model in mc/checks/c09.py; bound: depth 6 quick / 8 thorough over 3 priorities x 3 tasks; counters are abstracted to ranks in the state key (queue only compares them).',
         ref='5 C09'),
+    'C19': dict(
+        engine='progenum',
+        technique='bounded-exhaustive Env specs/constructors vs reference array, _at constraints, decoded EnvGen inputs',
+        text='All envelope specifications of the enumerated families (level lists of 2-5 values, scalar/short/full time lists, all 14 documented shape names, numbers and mixed or wrapped curve lists, all release/loop node pairs, every standard constructor over 3-4 values per parameter including defaults) are checked: each encodes to exactly the documented EnvGen array, evaluates client-side to its levels at breakpoints / between neighbours inside segments / last level afterwards on a 1/8 s grid plus all breakpoints, and appears identically as float32 in the decoded EnvGen unit inputs of a built definition.',
+        note='Trusted: mc/oracles/env_ref.py (array layout, shape numbers, constructor breakpoints typed from the Env/EnvGen help) and a private SCgf v2 reader. Inside segments only betweenness is demanded, on documented shape domains. Multichannel/UGen levels, IEnvGen, circle, Env.step node numbering and values before t=0 are not covered.',
+        ref='5 C19'),
+    'C08': dict(
+        engine='schedx',
+        technique='stateless preemption- and lateness-bounded exploration of all interleavings of driver threads with the real clock threads under a cooperative scheduler and virtual time',
+        text='For 75+ scenario programs (2-3 threads issuing sched/sched_abs/clear/stop/tempo calls, tasks that re-schedule or raise) every schedule with <=1 preemption and <=1 late timer (thorough: 2+1 and 3+0) is executed on the real SystemClock/TempoClock/AppClock code; each trace is checked for exactly-once, not-early, not-late (no waiting for an unrelated deadline), (time, scheduling order) order, reschedule relative to scheduled time, survival of raising tasks, clear/stop cancellation, dead-lock and lock-free queue access.',
+        note='Trusted: mc/vthreading.py (cooperative threading + virtual time), the per-execution clock re-creation mirror in mc/seams.py, the trace oracle in mc/checks/c08.py. Interleavings only at synchronisation operations; arbitrary bytecode-level switches and real OS timing are not modelled. Bounds: preemptions/lateness as stated; executions run to a horizon.',
+        ref='5 C08'),
 }
 
 NOT_APPLICABLE = {}
